@@ -174,6 +174,9 @@ class SimpleClient:
                     timeout=timeout):  # pragma: no cover
                 raise TimeoutError()
             if not self.connected:
+                if self.input_buffer:
+                    # an event arrived before the connection ended for good
+                    break
                 raise DisconnectedError()
             if not self.input_event.wait(timeout=timeout):
                 raise TimeoutError()
